@@ -80,6 +80,7 @@ Proof.
   - destruct (abs_trick v) as [temp mag].
     destruct (nbits mag >? prec + g_MAX_COEF_BITS_ADD) eqn:Echk; [discriminate|].
     pose proof (nbits_nonneg mag) as Hnb.
+    destruct ((g_MISSING_ZRL_EOB_CHECK =? 1) && (0 <? r / 256) && (nthZ (ehufsi actbl) 240 =? 0)); [discriminate|].
     destruct (zrl_fold_phi actbl Ht (seq 0 (Z.to_nat (r / 256))) st Hs) as [A [B C]]. cbv zeta in A, B, C.
     rewrite seq_length in B.
     set (st1 := fold_left (fun s (_ : nat) => put_bits s (nthZ (ehufco actbl) 240) (nthZ (ehufsi actbl) 240))
@@ -133,6 +134,7 @@ Proof.
   destruct (put_code_phi st temp (nbits mag) (nthZ (ehufco dctbl) sym) (nthZ (ehufsi dctbl) sym) st1 Hs Hnb ltac:(lia) ltac:(lia) Epc)
     as [A1 [B1 C1]].
   destruct (fold_left (fun acc v => ac_step prec actbl v acc) acs (inr (st1, 0))) as [e|[st2 r]] eqn:Ef; [discriminate|].
+  destruct ((g_MISSING_ZRL_EOB_CHECK =? 1) && (r >? 0) && (nthZ (ehufsi actbl) 0 =? 0)); [discriminate|].
   intro E. injection E as <-.
   assert (Hfit2 : prec + g_MAX_COEF_BITS_ADD + 16 <= g_BIT_BUF_SIZE) by (change g_DC_EXTRA_BITS with 1 in Hfit; lia).
   destruct (ac_fold_psi prec actbl Hat Hp Hfit2 acs st1 0 st2 r A1 ltac:(lia) Ef) as [A2 [B2 [C2 D2]]].
